@@ -39,6 +39,8 @@ static inline void api_masked_key_init(int alg, api_masked_key *mk, const unsign
 {
     if (alg == 2) ascon_masked_key_160_init(&mk->k160, k); else ascon_masked_key_128_init(&mk->k128, k);
 }
+static inline void api_masked_key_randomize(int alg, api_masked_key *mk)
+{ if (alg == 2) ascon_masked_key_160_randomize(&mk->k160); else ascon_masked_key_128_randomize(&mk->k128); }
 static inline void api_masked_key_free(int alg, api_masked_key *mk)
 {
     if (alg == 2) ascon_masked_key_160_free(&mk->k160); else ascon_masked_key_128_free(&mk->k128);
@@ -74,6 +76,11 @@ extern "C" {
 int cpp_encrypt(int family, int alg, const unsigned char *key, const unsigned char *nonce,
                 unsigned char *c, const unsigned char *m, size_t mlen, const unsigned char *ad, size_t adlen);
 int cpp_decrypt(int family, int alg, const unsigned char *key, const unsigned char *nonce,
+                unsigned char *m, const unsigned char *c, size_t clen, const unsigned char *ad, size_t adlen);
+/* the same through the key constructors instead of default construction + set_key */
+int cpp_encrypt_ctor(int family, int alg, const unsigned char *key, const unsigned char *nonce,
+                unsigned char *c, const unsigned char *m, size_t mlen, const unsigned char *ad, size_t adlen);
+int cpp_decrypt_ctor(int family, int alg, const unsigned char *key, const unsigned char *nonce,
                 unsigned char *m, const unsigned char *c, size_t clen, const unsigned char *ad, size_t adlen);
 #ifdef __cplusplus
 }
